@@ -253,6 +253,11 @@ pub fn docs(tier: Tier) -> Vec<Value> {
         json!({"a": [{"a": 1, "b": 2}, {"a": 0, "b": 0}], "b": "a"}),
         json!(["a", "", 0, false, {}, []]),
         json!({"a": "a", "b": ""}),
+        json!([]),
+        json!({}),
+        json!(""),
+        json!(false),
+        json!(0),
     ];
     if tier == Tier::Thorough {
         v.extend(crate::enumr::pool_quick());
